@@ -123,7 +123,33 @@ def build(seed: int, pid: str, ncfg: int) -> Tuple[Dict[str, Any], List[Dict[str
             # given the same operations is under-specified again, so no second write through one)
             geo["rewrite_remesh"] = False
     programs = [P.make_program(geo, h64(seed, "cfg", c) % (1 << 31), identity=(c == 0)) for c in range(ncfg)]
+    if pid == "C01" and rs.sub("late_conflict").chance(0.3):
+        programs = [late_conflict(p_) or p_ for p_ in programs]
     return geo, programs
+
+
+def late_conflict(program: Dict[str, Any]):
+    """A conflicting model whose odd chop arrives late: the script writes the consistent model, then chops one more
+    operation (which contradicts an earlier chop), clears, assembles and writes again - that second write must fail
+    with an inconsistent-grading error like a first one would. None if the program is not of that kind."""
+    ops = program["ops"]
+    if sum(1 for o in ops if o["op"] in ("write", "try_write")) != 1 or ops[-1]["op"] != "write" or any(o["op"] in ("remesh", "merge") for o in ops):
+        return None
+    asm, names = P.ref_assembly(program)
+    verdict = models.judge_families(asm)
+    if verdict.klass != "conflict" or len(verdict.conflicts) != 1:
+        return None
+    known = verdict.conflicts[0][1]
+    n, a, _ = known[-1]
+    late = [o for o in ops if o["op"] == "chop" and o["target"] == n and o["axis"] == a]
+    rest = [o for o in ops if o not in late]
+    a2, _ = P.ref_assembly(dict(program, ops=rest))
+    if models.judge_families(a2).klass != "ok":
+        return None
+    out = dict(program)
+    out["ops"] = rest + late + [{"op": "clear"}, {"op": "assemble"}, {"op": "write", "path": P.DICT_PATH + ".second"}]
+    out["meta"] = dict(program.get("meta", {}), late_conflict=True)
+    return out
 
 
 def camp_row(rs: Stream) -> Dict[str, Any]:
@@ -221,7 +247,8 @@ def evaluate(pid: str, program: Dict[str, Any], scheds: List[Dict[str, Any]], pr
             if second[0] != res.writes[0][0]:
                 vs.append(P.Violation("C02", "second-write-differs", "the same assembled mesh written twice gives two different files: "
                                       + _first_diff(res.writes[0][0], second[0])))
-        if len(res.writes) == 1 and res.outcome != "ok" and sum(1 for op in program["ops"] if op["op"] == "write") == 2 and not moved:
+        if len(res.writes) == 1 and res.outcome != "ok" and sum(1 for op in program["ops"] if op["op"] == "write") == 2 and not moved \
+                and not program.get("meta", {}).get("late_conflict"):
             vs.append(P.Violation("C02", "second-write-fails", f"the first write succeeded, writing the same mesh again ends {res.outcome}: {res.exc_msg[:200]}"))
         if second is not None and second[0] is not None and moved and pid == "C04" and parsed is not None:
             # sizes on the second file, against the moved geometry
